@@ -52,6 +52,54 @@ fn cel_type<T: Uni + Encode + ConstEncodedLen>(cx: &mut Cx, name: &str) {
 	}
 }
 
+/// is `T: ConstEncodedLen`?  Observed for concrete types by method resolution: the inherent method
+/// exists only when the bound holds and is preferred to the trait method that always exists.
+pub struct CelProbe<T>(pub std::marker::PhantomData<T>);
+impl<T: ConstEncodedLen> CelProbe<T> {
+	pub fn is_cel(&self) -> bool {
+		true
+	}
+}
+pub trait CelFallback {
+	fn is_cel(&self) -> bool {
+		false
+	}
+}
+impl<T> CelFallback for CelProbe<T> {}
+
+fn cel_marker<T: Uni + Encode>(cx: &mut Cx, name: &str, is_cel: bool) {
+	if cx.only.as_ref().map_or(false, |o| o != name) {
+		return;
+	}
+	cx.stats.bump(if is_cel { "cel-marker/present" } else { "cel-marker/absent" });
+	cx.cases.push(format!("(KCelIs {} {})", T::desc(), if is_cel { "true" } else { "false" }), name.to_string(), true);
+	if is_cel {
+		// the marker promises one length for every value
+		let mut lens = std::collections::BTreeSet::new();
+		let mut ex = vec![];
+		for i in 0..(if cx.thorough { 1000 } else { 100 }) {
+			cx.rng.maxbias = i % 2 == 0;
+			let v = T::gen(&mut cx.rng, 0);
+			let len = v.encode().len();
+			if lens.insert(len) {
+				ex.push(format!("{} -> {len}", v.val_enc()));
+			}
+		}
+		cx.rng.maxbias = false;
+		cx.oracle.check(lens.len() <= 1, "const-encoded-len-varies", || format!("{name}\tmarked ConstEncodedLen, lengths {:?}: {}", lens, ex.join(" ; ")));
+	}
+}
+macro_rules! cel_markers {
+	($cx:expr; $($t:ty),* $(,)?) => {$(
+		{
+			#[allow(unused_imports)]
+			use CelFallback as _;
+			let is = CelProbe::<$t>(std::marker::PhantomData).is_cel();
+			cel_marker::<$t>($cx, stringify!($t), is);
+		}
+	)*};
+}
+
 fn fixed_type<T: Uni + Encode + Decode>(cx: &mut Cx, name: &str) {
 	if cx.only.as_ref().map_or(false, |o| o != name) {
 		return;
@@ -187,7 +235,8 @@ pub fn run(args: &Args) {
 			(u8, u8, u8, u8, u8, u8, u8, u8, u8, u8, u8, u8, u8, u8, u8, u8, u8, u16),
 			Box<u8>, Box<(u8, Compact<u16>)>, Box<[u8; 16]>, Arc<u64>, Arc<Option<Box<u32>>>,
 			S1, UnitS, Nt, Sk, Disc, G<u8>, G<Option<Box<u8>>>, G<Compact<u64>>, Tr, Box<Tr>, [Disc; 3], (S1, Disc), Option<Sk>,
-			CpM, EaM, EnM, [CpM; 2], Option<EaM>, (EnM, CpM), G<CpM>
+			CpM, EaM, EnM, [CpM; 2], Option<EaM>, (EnM, CpM), G<CpM>,
+			Result<u8, u32>, Result<bool, u128>, Result<(), [u8; 9]>, Unit1, TrE, OneV, OneSk, Option<OneV>, [OneSk; 2], (Unit1, OneV), Box<TrE>
 		);
 		crate::for_types!(cel_type, cx;
 			u8, u16, u32, u64, u128, i8, i16, i32, i64, i128, bool, (),
@@ -196,12 +245,21 @@ pub fn run(args: &Args) {
 			(u8,), (u8, u16), (u8, u16, u32), ((u8, u16), (bool, u8)), Box<u8>, Box<[u8; 16]>, (Duration, NonZeroU16, [i32; 2])
 		);
 	}
+	// which types carry the ConstEncodedLen marker, and which must not
+	{
+		let cx = &mut cx;
+		cel_markers!(cx;
+			u8, u64, bool, (), Duration, [u8; 4], (u8, u16), Box<u8>, Box<[u8; 16]>, Range<u32>, RangeInclusive<u16>, PhantomData<u32>, NonZeroU32,
+			Compact<u8>, Compact<u32>, Option<u8>, Option<()>, Result<u8, u8>, Box<Compact<u32>>, Box<Option<u8>>, Range<Compact<u64>>, RangeInclusive<Compact<u16>>,
+			[Compact<u16>; 2], [Box<Compact<u16>>; 2], (u8, Box<Result<u8, u16>>), (u8, Compact<u16>), Option<Box<u8>>, [Option<u8>; 2]
+		);
+	}
 	// encoded_fixed_size of every registry type
 	{
 		let cx = &mut cx;
 		crate::for_all_types!(fixed_type, cx);
 	}
-	let rule = "for every MaxEncodedLen registry type (primitives, compacts, NonZero, Option/Result/arrays/tuples/Box/Arc nestings, Duration, ranges, derived structs/enums with compact / encoded_as / skip attributes and generic instantiations): the reported max_encoded_len() vs the model's mel, and 300 (3000 thorough) values, half of them with every integer forced to its maximum; ConstEncodedLen types: exact length on 100 values; encoded_fixed_size() of every registry type vs the model's fixed_size and exact length on 40 values. Cases = the reported constants; oracle_checks = values tried";
+	let rule = "for every MaxEncodedLen registry type (primitives, compacts, NonZero, Option/Result/arrays/tuples/Box/Arc nestings, Duration, ranges, derived structs/enums with compact / encoded_as / skip attributes and generic instantiations): the reported max_encoded_len() vs the model's mel, and 300 (3000 thorough) values, half of them with every integer forced to its maximum; ConstEncodedLen types: exact length on 100 values; presence / absence of the ConstEncodedLen marker observed by method resolution for 28 std/crate types (a marked type must show one length on 100 values); encoded_fixed_size() of every registry type vs the model's fixed_size and exact length on 40 values. Cases = the reported constants; oracle_checks = values tried";
 	cx.cases.write(&args.out, "c13", args.shards);
 	cx.oracle.write(&args.out);
 	cx.stats.write(&args.out, cx.cases.len(), cx.cases.nontrivial, cx.cases.dups, cx.oracle.checks, rule);
